@@ -41,6 +41,7 @@ static unsigned char* comp; static size_t compSize, compCap;     /* everything e
 static ZSTD_CCtx* cctx; static ZSTD_DCtx* dctx; static ZBUFF_CCtx* zbc;
 static size_t dIn, dOut;                                          /* decoder cursor into comp / regenerated count */
 static int api = 2; static int move = 0; static FILE* T;
+static int stableIn = 0, stableOut = 0; static unsigned char* sOut = NULL; static size_t sOutCap = 0, sOutPos = 0;   /* stable-buffer modes */
 static size_t frameEnds[64]; static size_t frameSrcEnds[64]; static int nFrames;   /* as produced by the compressor */
 static int endPending = 0; static size_t pendingSlice = 0;   /* e_end issued, not yet completed: the offered slice is frozen */
 static long long c_ret; static size_t c_inDelta, c_outDelta;
@@ -135,6 +136,8 @@ static void ccall(int dir, size_t inAvail, size_t cap) {
     ip = src + srcPos;
     if (move) { inbuf = (unsigned char*)malloc(avail ? avail : 1); memcpy(inbuf, ip, avail); ip = inbuf; }
     in.src = ip; in.size = avail; in.pos = 0; o.dst = out; o.size = cap; o.pos = 0;
+    if (stableIn) { in.src = src; in.size = srcPos + avail; in.pos = srcPos; }          /* ZSTD_c_stableInBuffer: same buffer, growing */
+    if (stableOut) { o.dst = sOut; o.size = sOutCap; o.pos = sOutPos; cap = sOutCap - sOutPos; }   /* dst and size never change, only pos evolves */   /* ZSTD_c_stableOutBuffer */
     if (api == 2) r = ZSTD_compressStream2(cctx, &o, &in, (ZSTD_EndDirective)dir);
     else if (api == 1) {      /* legacy entry points: compressStream, then flushStream / endStream once the input is consumed */
         fn = "compressStream"; r = 0;
@@ -150,14 +153,19 @@ static void ccall(int dir, size_t inAvail, size_t cap) {
         else if (!ZSTD_isError(r)) r = 1;
     }
     (void)r2;
-    if (o.pos <= cap) emit(out, o.pos);
-    srcPos += in.pos;
-    fprintf(T, "{\"e\":\"ccall\",\"fn\":\"%s\",\"dir\":%d,\"inAvail\":%zu,\"outAvail\":%zu,\"inDelta\":%zu,\"outDelta\":%zu,\"ret\":%lld,\"err\":\"%s\",\"srcPos\":%zu,\"emitted\":%zu,\"srcLeft\":%zu}\n",
-            fn, dir, avail, cap, in.pos, o.pos, ZSTD_isError(r) ? -1LL : (long long)r, ZSTD_isError(r) ? ZSTD_getErrorName(r) : "", srcPos, compSize, srcSize - srcPos);
-    c_ret = ZSTD_isError(r) ? -1LL : (long long)r; c_inDelta = in.pos; c_outDelta = o.pos;
-    if (dir == 2 && !ZSTD_isError(r)) { endPending = 1; pendingSlice = avail - in.pos; }
+    long long inDeltaSigned;
+    /* stable-in mode: the library may have "pretended" to consume a small input earlier and takes that back now: pos can move backwards */
+    if (stableIn) { inDeltaSigned = (long long)in.pos - (long long)srcPos; } else inDeltaSigned = (long long)in.pos;
+    if (stableOut) { size_t produced = o.pos - sOutPos; emit(sOut + sOutPos, produced); sOutPos = o.pos; o.pos = produced; }
+    else if (o.pos <= cap) emit(out, o.pos);
+    srcPos = (size_t)((long long)srcPos + inDeltaSigned);
+    if (stableIn) { in.pos = inDeltaSigned > 0 ? (size_t)inDeltaSigned : 0; in.size = avail; }
+    fprintf(T, "{\"e\":\"ccall\",\"fn\":\"%s\",\"dir\":%d,\"inAvail\":%zu,\"outAvail\":%zu,\"inDelta\":%lld,\"outDelta\":%zu,\"ret\":%lld,\"err\":\"%s\",\"srcPos\":%zu,\"emitted\":%zu,\"srcLeft\":%zu}\n",
+            fn, dir, avail, cap, inDeltaSigned, o.pos, ZSTD_isError(r) ? -1LL : (long long)r, ZSTD_isError(r) ? ZSTD_getErrorName(r) : "", srcPos, compSize, srcSize - srcPos);
+    c_ret = ZSTD_isError(r) ? -1LL : (long long)r; c_inDelta = inDeltaSigned > 0 ? (size_t)inDeltaSigned : 0; c_outDelta = o.pos;
+    if (dir == 2 && !ZSTD_isError(r)) { endPending = 1; pendingSlice = (size_t)((long long)avail - inDeltaSigned); }
     if (ZSTD_isError(r)) { endPending = 0; pendingSlice = 0; }
-    if (!ZSTD_isError(r) && r == 0 && dir == 2 && in.pos == in.size) {   /* frame completed */
+    if (!ZSTD_isError(r) && r == 0 && dir == 2 && inDeltaSigned == (long long)avail) {   /* frame completed */
         endPending = 0; pendingSlice = 0;
         if (nFrames < 64) { frameEnds[nFrames] = compSize; frameSrcEnds[nFrames] = srcPos; nFrames++; }
         frameStart = srcPos; }
@@ -224,7 +232,7 @@ int main(int argc, char** argv) {
     while (fgets(line, sizeof(line), S)) {
         char cmd[32] = "", a[64] = "", b[64] = "", c[64] = "", d[64] = ""; int n = sscanf(line, "%31s %63s %63s %63s %63s", cmd, a, b, c, d);
         if (n < 1 || cmd[0] == '#') continue;
-        if (!strcmp(cmd, "CNEW")) { endPending = 0; pendingSlice = 0; ZSTD_freeCCtx(cctx); cctx = ZSTD_createCCtx(); ZBUFF_freeCCtx(zbc); zbc = ZBUFF_createCCtx(); srcSize = srcPos = frameStart = 0; compSize = 0; nFrames = 0; api = 2; move = 0;
+        if (!strcmp(cmd, "CNEW")) { endPending = 0; pendingSlice = 0; stableIn = stableOut = 0; sOutPos = 0; ZSTD_freeCCtx(cctx); cctx = ZSTD_createCCtx(); ZBUFF_freeCCtx(zbc); zbc = ZBUFF_createCCtx(); srcSize = srcPos = frameStart = 0; compSize = 0; nFrames = 0; api = 2; move = 0;
             ZSTD_freeDCtx(dctx); dctx = ZSTD_createDCtx(); dIn = dOut = 0; fprintf(T, "{\"e\":\"cnew\"}\n"); }
         else if (!strcmp(cmd, "P")) { size_t r = ZSTD_CCtx_setParameter(cctx, (ZSTD_cParameter)atoi(a), atoi(b)); fprintf(T, "{\"e\":\"cparam\",\"id\":%d,\"v\":%d,\"ok\":%s}\n", atoi(a), atoi(b), ZSTD_isError(r) ? "false" : "true"); }
         else if (!strcmp(cmd, "DP")) { size_t r = ZSTD_DCtx_setParameter(dctx, (ZSTD_dParameter)atoi(a), atoi(b)); fprintf(T, "{\"e\":\"dparam\",\"id\":%d,\"v\":%d,\"ok\":%s}\n", atoi(a), atoi(b), ZSTD_isError(r) ? "false" : "true"); }
@@ -234,6 +242,9 @@ int main(int argc, char** argv) {
         else if (!strcmp(cmd, "API")) { api = !strcmp(a, "legacy") ? 1 : !strcmp(a, "zbuff") ? 3 : 2;
             if (api == 3) { int lvl = 3; ZBUFF_compressInit(zbc, lvl); }
             fprintf(T, "{\"e\":\"api\",\"api\":\"%s\"}\n", a); }
+        else if (!strcmp(cmd, "STABLE")) { stableIn = atoi(a); stableOut = atoi(b);
+            if (stableOut) { sOutCap = ZSTD_compressBound(MAXSRC) ; if (!sOut) sOut = (unsigned char*)malloc(sOutCap); sOutPos = 0; }
+            fprintf(T, "{\"e\":\"move\",\"on\":%d}\n", 10 * stableIn + stableOut); }
         else if (!strcmp(cmd, "MOVE")) { move = atoi(a); fprintf(T, "{\"e\":\"move\",\"on\":%d}\n", move); }
         else if (!strcmp(cmd, "C")) { int dir = atoi(a); size_t in = (size_t)atol(b), cap = (size_t)atol(c); int rep = (d[0] == '*'); int guard = 0, idle = 0;
             if (!rep) ccall(dir, in, cap);
